@@ -17,3 +17,14 @@ Proof. exact (table_ok_total interp_table interp_table_ok). Qed.
 Lemma interp_ld_rows : forall op s d, In (op, s) interp_table -> ld_twin op = Some d ->
   exists sd, In (d, sd) interp_table /\ cstmt_eqb sd (ld2d_stmt s) = true /\ row_sound d sd.
 Proof. exact (table_ok_ld_twin interp_table interp_table_ok). Qed.
+
+(* overflow instructions: result and both flag formulas of the interpreter *)
+Lemma interp_overflow_flags : forall op s, In (op, s) interp_table ->
+  forall args r sf uf, doc_ovf op args = Some (r, sf, uf) ->
+  exists r' fs fu, stmt_ovf (env_of args) s = Some (r', fs, fu) /\ eqv op r' r = true
+    /\ (fst (ovf_defined op) = true -> fs = Some sf) /\ (snd (ovf_defined op) = true -> fu = Some uf).
+Proof.
+  intros op s Hin args r sf uf Hd.
+  assert (Hld : ld_opcode op = false) by (unfold doc_ovf in Hd; destruct op; cbn in Hd; try discriminate; reflexivity).
+  destruct (interp_rows_sound op s Hin Hld) as (_ & _ & _ & H). eauto.
+Qed.
